@@ -11,6 +11,8 @@ import (
 	"os"
 	"reflect"
 	"sort"
+	"strings"
+	"time"
 
 	"github.com/ozanh/ugo"
 	"github.com/ozanh/ugo/encoder"
@@ -290,5 +292,155 @@ func init() {
 			}()
 			return nil
 		})
+	}
+
+	// c11big <results.ndjson>: functions whose version 1 form fits 16-bit positions while the widened form
+	// does not - relocated targets beyond 65535 in the main function and in a nested function
+	subs["c11big"] = func(args []string) error {
+		out, err := newOut(args[0])
+		if err != nil {
+			return err
+		}
+		defer out.close()
+		body := func(n int) string {
+			var sb strings.Builder
+			sb.WriteString("b := 0\n")
+			for i := 0; i < n; i++ {
+				sb.WriteString("if a { b += 1 }\n")
+			}
+			sb.WriteString("try { if a { b += 1000 } else { throw \"t\" } } catch e { b += 7 } finally { b += 5 }\n")
+			sb.WriteString("for i := 0; i < 3; i++ { if i == 1 { continue }; b += i }\nreturn a ? b : [][b]\n")
+			return sb.String()
+		}
+		progs := map[string]func(n int) string{
+			"main":   func(n int) string { return "param a\n" + body(n) },
+			"nested": func(n int) string { return "param a\nf := func(a) {\n" + body(n) + "}\nreturn f(a)\n" },
+		}
+		lens := func(src string) (v1, v2 int, bc, nb *ugo.Bytecode, err error) {
+			bc, err = ugo.Compile([]byte(src), ugo.CompilerOptions{})
+			if err != nil {
+				return
+			}
+			big := bc.Main
+			for _, c := range bc.Constants {
+				if cf, ok := c.(*ugo.CompiledFunction); ok && len(cf.Instructions) > len(big.Instructions) {
+					big = cf
+				}
+			}
+			v2 = len(big.Instructions)
+			nb, err = narrowBytecode(bc)
+			if err != nil {
+				return
+			}
+			nbig := nb.Main
+			for _, c := range nb.Constants {
+				if cf, ok := c.(*ugo.CompiledFunction); ok && len(cf.Instructions) > len(nbig.Instructions) {
+					nbig = cf
+				}
+			}
+			v1 = len(nbig.Instructions)
+			return
+		}
+		n := 0
+		for name, mk := range progs {
+			// largest N whose widened form stays below 2^16, largest N whose version 1 form exists
+			lo, hi := 1, 8000
+			for lo < hi {
+				mid := (lo + hi + 1) / 2
+				if _, v2, _, _, _ := lens(mk(mid)); v2 < 1<<16 {
+					lo = mid
+				} else {
+					hi = mid - 1
+				}
+			}
+			n0 := lo
+			lo, hi = n0, 8000
+			for lo < hi {
+				mid := (lo + hi + 1) / 2
+				if _, _, _, _, err := lens(mk(mid)); err == nil {
+					lo = mid
+				} else {
+					hi = mid - 1
+				}
+			}
+			n1 := lo
+			for _, k := range []int{n0 - 1, n0, n0 + 1, n0 + 2, n0 + 40, (n0 + n1) / 2, n1 - 1, n1} {
+				src := mk(k)
+				v1, v2, bc, nb, err := lens(src)
+				r := map[string]any{"prog": name, "n": k, "v1len": v1, "v2len": v2, "ok": true}
+				if err != nil {
+					r["skip"] = err.Error()
+					out.put(r)
+					continue
+				}
+				n++
+				func() {
+					defer func() {
+						if p := recover(); p != nil {
+							r["ok"], r["what"] = false, fmt.Sprint("panic: ", p)
+						}
+					}()
+					data, err := asV1Container(nb)
+					if err != nil {
+						r["ok"], r["what"] = false, "harness: "+err.Error()
+						return
+					}
+					got, err := encoder.DecodeBytecodeFrom(bytes.NewReader(data), nil)
+					if err != nil {
+						r["ok"], r["what"] = false, "decoder error: "+err.Error()
+						return
+					}
+					for _, arg := range []ugo.Object{ugo.True, ugo.False} {
+						w, werr := ugo.NewVM(bc).Run(nil, arg)
+						// a wrong target may send the decoded program anywhere: run it under a watchdog
+						gvm := ugo.NewVM(got).SetRecover(true)
+						type gres struct {
+							o ugo.Object
+							e error
+						}
+						gch := make(chan gres, 1)
+						go func() {
+							defer func() {
+								if p := recover(); p != nil {
+									gch <- gres{nil, fmt.Errorf("PANIC: %v", p)}
+								}
+							}()
+							o, e := gvm.Run(nil, arg)
+							gch <- gres{o, e}
+						}()
+						var g ugo.Object
+						var gerr error
+						select {
+						case x := <-gch:
+							g, gerr = x.o, x.e
+						case <-time.After(10 * time.Second):
+							for i := 0; i < 2000; i++ {
+								gvm.Abort()
+								time.Sleep(time.Millisecond)
+							}
+							r["ok"], r["what"] = false, fmt.Sprintf("a=%v: the program decoded from version 1 did not end within 10 s", arg)
+							return
+						}
+						if fmt.Sprint(w, werr != nil) != fmt.Sprint(g, gerr != nil) {
+							r["ok"], r["what"] = false, fmt.Sprintf("a=%v: decoded from version 1 runs to %v / %v, compiled runs to %v / %v", arg, g, errShort(gerr), w, errShort(werr))
+							return
+						}
+					}
+					if !bytes.Equal(bc.Main.Instructions, got.Main.Instructions) || !reflect.DeepEqual(bc.Main.SourceMap, got.Main.SourceMap) {
+						r["ok"], r["what"] = false, "main: instructions / source map differ from the compiled ones"
+					}
+					for i := range bc.Constants {
+						a, ok1 := bc.Constants[i].(*ugo.CompiledFunction)
+						b, ok2 := got.Constants[i].(*ugo.CompiledFunction)
+						if ok1 && ok2 && (!bytes.Equal(a.Instructions, b.Instructions) || !reflect.DeepEqual(a.SourceMap, b.SourceMap)) {
+							r["ok"], r["what"] = false, fmt.Sprintf("constant %d: instructions / source map differ from the compiled ones", i)
+						}
+					}
+				}()
+				out.put(r)
+			}
+		}
+		out.put(map[string]any{"done": true, "n": n})
+		return nil
 	}
 }
